@@ -56,7 +56,7 @@ PROPS = {
     },
     "C15": {
         "domains": [{"name": "set", "n_quick": 3000, "n_thorough": 30000}, {"name": "hlp", "n_quick": 600, "n_thorough": 15000}],
-        "lean_modules": ["SMD.Proofs.SetAlgebra", "SMD.Properties.C15"],
+        "lean_modules": ["SMD.Proofs.SetAlgebra", "SMD.Properties.C15", "SMD.Properties.C04Exact"],
         "theorems": [],
         "assumptions": [],
     },
@@ -80,6 +80,7 @@ for _p in ("C01", "C02", "C03", "C04", "C05", "C06", "C07", "C19"):
 
 for _p in ("C04", "C05"):
     PROPS[_p]["domains"] = PROPS[_p]["domains"] + [{"name": "hlp", "n_quick": 600, "n_thorough": 15000}]
+PROPS["C05"]["lean_modules"] = ["SMD.Properties.C05", "SMD.Properties.C04Exact"]
 PROPS["C19"]["lean_modules"] = ["SMD.Properties.C19", "SMD.Properties.FindingWitnesses"]
 PROPS["C13"]["domains"].append({"name": "sch", "n_quick": 150, "n_thorough": 3000})
 PROPS["C19"]["domains"].append({"name": "flt", "n_quick": 1500, "n_thorough": 30000})
